@@ -3,6 +3,8 @@ MIR_NOTE = ('Bounded symbolic execution, not a proof. Trusted: rustc nightly MIR
             'the OpenMLS/storage environment contracts listed in the evidence, z3. Callee results are nondeterministic; loops and symbolic lists are '
             'unrolled to the stated bounds with an unwinding check (a path hitting the bound makes the check BROKEN, not passing).')
 ENGINES = [
+    dict(name='sqlsym', path='/verif/sqlsym', serves_properties=['C09', 'C12'],
+         kind_free_text='E4: SQL programs of the SQLite backend (extracted from the sources with the schema of migrations/*.sql) as relational SMT over symbolic rows, decided by z3'),
     dict(name='mirsym', path='/verif/mirsym', serves_properties=['C01', 'C02', 'C04', 'C05', 'C07', 'C08', 'C16'],
          kind_free_text='E3/E3c: symbolic execution (z3) of the textual MIR of the repository crates, regenerated from the working tree on every run'),
     dict(name='kani-direct', path='/verif/kani/direct', serves_properties=['C18'],
@@ -12,6 +14,20 @@ NOTES = ('Solver-based checking of the real code: CBMC via Kani over compiled Ru
          "repository's MIR and SQL. Every claim is bounded; see DESIGN.md. Exit 2 = broken/inconclusive machinery, never a VIOLATION.")
 PENDING = 'check not built yet in this revision of /verif (work in progress; see DESIGN.md section 5 for the planned obligations)'
 CHECKS = [
+    dict(id='C09', engine='sqlsym', design_ref='DESIGN.md section 5, C09',
+         technique='relational SMT (z3) over the SQL program and schema extracted from the SQLite backend: symbolic rows, foreign-key cascade closure, frame-condition queries; native replay on the real backend',
+         text='The statement list of restore_group_from_snapshot is executed symbolically over every table of the schema (symbolic row presence, owning group, snapshot name, '
+              'ON DELETE CASCADE closure) and z3 decides per table that rows of other groups, of non-snapshotted tables and of other snapshots survive, that the group ends '
+              'with exactly the snapshot rows and that the snapshot is consumed; column coverage of snapshot/restore is cross-checked against the migrations; snapshot, release '
+              'and prune are shown to touch only the snapshot table.',
+         note='Bounded: 2 candidate rows per table, target group vs other, target snapshot name vs other. Assumes the group existed at snapshot time and SQLite enforces the declared '
+              'foreign keys. Column-level fidelity is a catalogue cross-check, not a solver query. The memory backend half (E3c) is listed in the evidence when built; until then C09 is claimed for the SQLite backend.'),
+    dict(id='C12', engine='sqlsym', design_ref='DESIGN.md section 5, C12',
+         technique='SMT (z3) over the extracted SQL statement lists with a symbolic crash index and SQLite transaction/savepoint semantics',
+         text='For snapshot creation, rollback and relay replacement z3 shows that for every crash point (symbolic statement index) the persisted effects are all or none, i.e. every '
+              'state-changing statement lies inside the BEGIN..COMMIT / SAVEPOINT..RELEASE bracket, and that the error path rolls back.',
+         note='One clause of C12 only. Trusted: SQLite atomic commit. The main clause (re-processing the interrupted event converges) spans OpenMLS writes and ~80 auto-committed '
+              'statements and is NOT covered.'),
     dict(id='C01', engine='mirsym', design_ref='DESIGN.md section 5, C01',
          technique='symbolic execution of the compiler MIR with z3: call-graph-derived function set, per-path ordering and dataflow assertions; native replay of findings',
          text='On every path of every mdk-core function that can merge a commit (set recomputed from the MIR call graph) z3-guarded exploration shows a snapshot of the pre-merge epoch, '
@@ -65,4 +81,4 @@ NOT_APPLICABLE = [
     dict(property_id='C14', reason='needs core::fmt executed on every path or a taint analysis; formatting is what this family stubs out'),
     dict(property_id='C19', reason='thread interleavings: Kani sequentialises atomics and rejects thread::spawn; parking_lot crashes the Kani compiler; no concurrency engine in this family here'),
 ] + [dict(property_id=p, reason=PENDING) for p in
-     ['C06', 'C09', 'C10', 'C11', 'C12', 'C15', 'C17', 'C20']]
+     ['C06', 'C10', 'C11', 'C15', 'C17', 'C20']]
